@@ -605,7 +605,9 @@ Proof.
   unfold get_listen_address. destruct (network_address_total v a) as (na & ->). cbn [bind negb].
   destruct (is_nil l); [apply global_bind_no_crash|].
   destruct (split_host_port_cases na) as [(h & p & ->)| ->]; [|discriminate].
-  destruct (split_byte c_colon l) as [s0 srest]. destruct (_ && _); [discriminate|].
+  destruct (split_byte c_colon l) as [s0 srest]. destruct (_ && _).
+  { destruct (fix_n3 v); [|discriminate].
+    destruct (split_host_port_cases (s0 ++ c_colon :: p)) as [(h2 & p2 & ->)| ->]; discriminate. }
   destruct (split_host_port_cases l) as [(hl & pl & ->)| ->]; [|discriminate].
   destruct (_ && _); discriminate.
 Qed.
@@ -707,7 +709,12 @@ Proof.
     destruct (is_nil srest && negb (is_nil p)) eqn:C.
     + apply andb_true_iff in C. destruct C as [C1 C2]. destruct srest; [|discriminate].
       apply split_byte_nil_iff in SB. destruct SB as [-> NC].
-      intros H; inversion H. exists na, hp, p. repeat split; auto. right; left.
+      intros H.
+      assert (Er : r = (l0 :: l') ++ c_colon :: p).
+      { destruct (fix_n3 v); [|inversion H; reflexivity].
+        destruct (split_host_port ((l0 :: l') ++ c_colon :: p)) as [[h2 p2]| |]; try discriminate.
+        inversion H; reflexivity. }
+      exists na, hp, p. repeat split; auto. right; left.
       repeat split; auto; try discriminate. destruct p; [discriminate|discriminate].
     + destruct (split_host_port (l0 :: l')) as [[hl pl]| |] eqn:SL; try discriminate.
       destruct (negb (is_nil hl) && negb (is_nil pl)) eqn:D; [|discriminate].
@@ -744,6 +751,46 @@ Theorem listen_bracket_refuted :
   exists a l r, valid pinned a = Ok true /\ get_listen_address pinned a l = Ok r /\
                 split_host_port r = Err.
 Proof. exists (B "tcp://1.2.3.4:2000"), (B "[abc"), (B "[abc:2000"). vm_compute. auto. Qed.
+
+Lemma last_colon_unique (u u' w w' : bytes) :
+  u ++ c_colon :: w = u' ++ c_colon :: w' -> ~ In c_colon w -> ~ In c_colon w' -> w = w'.
+Proof.
+  intros E Nw Nw'. pose proof (last_index_byte_app c_colon u w Nw) as L1.
+  pose proof (last_index_byte_app c_colon u' w' Nw') as L2. rewrite E in L1. rewrite L1 in L2.
+  inversion L2 as [L]. apply app_len_inj in E; auto. destruct E as [_ E]. inversion E; auto.
+Qed.
+
+(* with the repair of N3 the bracket exception disappears: whatever getListenAddress
+   returns for a valid server address is accepted by SplitHostPort again *)
+Theorem listen_usable_fixed v a l r : fix_n3 v = true ->
+  valid v a = Ok true -> get_listen_address v a l = Ok r ->
+  exists h' p', split_host_port r = Ok (h', p') /\ p' <> [].
+Proof.
+  intros FX V L.
+  destruct (in_dec ascii_dec c_colon l) as [IC|NC]; [eapply listen_usable; eauto|].
+  destruct l as [|l0 l']; [eapply listen_usable; eauto; left; split; intros []|].
+  pose proof V as V'. apply valid_iff_grammar in V'. destruct V' as (ty & hp & h & p & P).
+  destruct (accessors_valid v a ty hp h p P) as (_ & _ & NA & _ & _).
+  destruct (parts_split _ _ _ _ _ _ P) as (_ & SHP & _).
+  assert (PG : PortG p) by (destruct P as (_ & _ & _ & _ & PG & _); exact PG).
+  assert (PN : p <> []).
+  { destruct PG as (sg & ds & -> & [NE _] & _). intros E. apply app_eq_nil in E. tauto. }
+  unfold get_listen_address in L. rewrite NA in L. cbn [bind is_nil] in L. rewrite SHP in L.
+  rewrite (split_byte_notin c_colon (l0 :: l') NC) in L. rewrite FX in L.
+  destruct p as [|p0 p']; [congruence|]. cbn [is_nil andb negb] in L.
+  destruct (split_host_port ((l0 :: l') ++ c_colon :: p0 :: p')) as [[h2 p2]| |] eqn:S2; try discriminate.
+  inversion L; subst r. exists h2, p2. split; auto.
+  destruct (split_host_port_Ok _ _ _ S2) as (_ & _ & (P2c & _ & _) & Form).
+  destruct (PortG_clean _ PG) as (PC & _).
+  assert (E2 : p0 :: p' = p2).
+  { destruct Form as [[E _]|E].
+    - eapply last_colon_unique; eauto.
+    - change (c_lbr :: h2 ++ c_rbr :: c_colon :: p2) with ((c_lbr :: h2 ++ [c_rbr]) ++ c_colon :: p2) in E
+        || (replace (c_lbr :: h2 ++ c_rbr :: c_colon :: p2) with ((c_lbr :: h2 ++ [c_rbr]) ++ c_colon :: p2) in E
+              by (simpl; rewrite <- app_assoc; reflexivity)).
+      eapply last_colon_unique; eauto. }
+  rewrite <- E2. discriminate.
+Qed.
 
 (* ---- the documented grammar against the one the pinned code implements ------------------------------- *)
 Lemma fold_case_ascii v h : all is_ascii h -> fold_case v h = map lower_ascii h.
